@@ -23,9 +23,11 @@ import extract  # noqa: E402
 
 VERIF = extract.VERIF
 REPO = extract.REPO
-BUILD = os.path.join(VERIF, "build")
-EVID = os.path.join(VERIF, "evidence")
-REPLAYS = os.path.join(VERIF, "replays")
+# (the three directories can be redirected for side runs, e.g. evaluating a seeded change in a scratch worktree
+#  with VERIF_REPO pointing at it, without disturbing /verif/build, /verif/evidence and /repo)
+BUILD = os.environ.get("VERIF_BUILD", os.path.join(VERIF, "build"))
+EVID = os.environ.get("VERIF_EVID", os.path.join(VERIF, "evidence"))
+REPLAYS = os.environ.get("VERIF_REPLAYS", os.path.join(VERIF, "replays"))
 
 VERIFICATION_MSGS = (
     "postcondition not satisfied", "precondition not satisfied", "assertion failed",
